@@ -53,15 +53,18 @@ static FCase gen_case() {
   c.scale_x = gen_scale();
   c.scale_y = gen_scale();
   // keep table sizes moderate: width * 2^bits <= 16384 per axis (memory/time of the harness, not a library limit)
-  auto maxbits = [](int r, int s, int64_t sc) {
+  // (one case in sixteen may go up to 70000 entries per axis: width * 2^bits beyond 32768)
+  const double cap = coin(6) ? 70000 : 16384;
+  auto maxbits = [cap](int r, int s, int64_t sc) {
     double w = std::ceil(KW[r] + std::fabs((double)sc / 65536.0) * KW[s]);
     if (w < 1) w = 1;
     int b = 8;
-    while (b > 0 && w * (1 << b) > 16384) b--;
+    while (b > 0 && w * (1 << b) > cap) b--;
     return b;
   };
   c.bx = (int)R(0, maxbits(c.rx, c.sx, c.scale_x));
   c.by = (int)R(0, maxbits(c.ry, c.sy, c.scale_y));
+  if (cap > 20000 && coin(60)) c.bx = maxbits(c.rx, c.sx, c.scale_x);  // as many phases as fit
   c.color = pickw({1, 1, 3}) == 0 ? 0u : (coin(50) ? 0xffffffffu : u32());
   return c;
 }
